@@ -270,6 +270,20 @@ def run(ctx):
         ctx.count('real-binary:arguments rc=%d' % rc)
         if rc < 0 or b'goroutine ' in err or b'panic:' in err:
             ctx.problem('oracle', '`%s` (missing or surplus argument) ends with status %d: %s' % (' '.join(argv), rc, err.decode('utf-8', 'replace')[:200]), None, {'argv': argv}, signature='panic:arguments')
+    if core.SCRATCH_UID:
+        try:
+            cgobin = core.build_go(False, cgo=True)
+        except core.Infra:
+            cgobin = None            # no C compiler: the cgo flavour cannot be built here
+        if cgobin:
+            for argv in (['reg'], ['--help'], ['stats'], ['lint', 'log.yaml']):
+                for drop in ((), ('HOME',), ('HOME', 'USER')):
+                    rc, out, err = core.run_real_binary(cgobin, ['--today', '2021/01/28'] + argv, files, drop_env=drop)
+                    n += 1
+                    ctx.count('real-binary (cgo, uid without passwd entry) rc=%d' % rc)
+                    if rc < 0 or b'goroutine ' in err or b'panic:' in err:
+                        ctx.problem('oracle', '`%s` of the cgo build crashes under a uid that has no entry in the user database%s: %s' % (
+                            ' '.join(argv), ' without ' + '/'.join(drop) if drop else '', err.decode('utf-8', 'replace')[:200]), None, {'argv': argv, 'unset': list(drop)}, signature='panic:no-passwd-entry')
     ctx.evaluations += n
     ctx.notes.append('%d runs of the untagged binary with malformed configuration files and missing / surplus arguments' % n)
     c = cases[10]
